@@ -55,6 +55,7 @@ type c04Cfg struct {
 	depth      int
 	bigLen     int  // sendbig: size of a blocking Write
 	wide       bool // thorough tier: larger argument domains
+	rsa        bool // the peer negotiated RESET_STREAM_AT: SetReliableBoundary is in the alphabet
 }
 
 // c04Snd receives the streamSender callbacks of the send halves (recvSide=false) or of the
@@ -173,7 +174,7 @@ func newC04World(cfg *c04Cfg) *c04World {
 	for i := 0; i < 2; i++ {
 		w.sfc[i] = flowcontrol.NewStreamFlowController(c04IDs[i], w.cfc, c*protocol.ByteCount(cfg.rcvS), c*protocol.ByteCount(cfg.maxS),
 			c*protocol.ByteCount(cfg.sndS), w.rtt, utils.DefaultLogger)
-		w.ss[i] = newSendStream(context.Background(), c04IDs[i], w.sndS, w.sfc[i], false)
+		w.ss[i] = newSendStream(context.Background(), c04IDs[i], w.sndS, w.sfc[i], cfg.rsa)
 		w.rs[i] = newReceiveStream(c04IDs[i], w.sndR, w.sfc[i])
 		w.limS[i] = cfg.cell * cfg.sndS
 		w.advS[i] = cfg.cell * cfg.rcvS
